@@ -2,6 +2,7 @@
   Helper lemmas: the byte-slice decoders (safe and unchecked) invert the reference encoder.
 -/
 import Bebop.Proofs.Enc
+import Bebop.Proofs.GSize
 
 namespace Bebop
 
@@ -160,11 +161,6 @@ theorem key_enc_pos (env : Env) (k : Ty) (hk : isKeyTy k = true) : (a : Val) →
   | .msg _, h => by simp only [wt] at h; obtain ⟨_, _, rfl, _⟩ := h; simp [isKeyTy] at hk
   | .union _ _, h => by simp only [wt] at h; obtain ⟨_, _, _, rfl, _⟩ := h; simp [isKeyTy] at hk
 
-theorem find_msgField (fds : List MsgField) (i : Nat) (fd : MsgField)
-    (h : fds.find? (fun fd => fd.idx == i) = some fd) : fd.idx = i := by
-  have := List.find?_some h
-  simpa using this
-
 mutual
 /-- Every decoder variant reads back exactly the value that was encoded and stops exactly at its end. -/
 theorem dec_enc (env : Env) (hE : EnvOk env) :
@@ -227,11 +223,13 @@ theorem dec_enc (env : Env) (hE : EnvOk env) :
   | .struct fs, ty, safe, f, rest, h, hf => by
       match f, hf with
       | f+1, hf =>
+      have hg := gsize_eq_vsize_of_wt env _ ty h
       simp only [wt] at h
       obtain ⟨n, tys, rfl, hn, hw⟩ := h
       simp only [rank] at hf
       have hf' : rankList fs < f := by omega
       simp only [dec, hn, enc, decFields_enc env hE fs tys safe f rest hw hf', Res.ok_bind]
+      rw [hg]
       have hle : vsize (.struct fs) ≤ (encList fs ++ rest).length := by
         simp [vsize, length_encList]
       simp only [hle, if_true, Res.pure_eq]
@@ -242,6 +240,7 @@ theorem dec_enc (env : Env) (hE : EnvOk env) :
       | 0, hf => simp [rank] at hf
       | 1, hf => simp [rank] at hf
       | f+2, hf =>
+      have hg := gsize_eq_vsize_of_wt env _ ty h
       simp only [wt] at h
       obtain ⟨n, fds, rfl, hn, hw, hsz⟩ := h
       simp only [rank] at hf
@@ -259,9 +258,9 @@ theorem dec_enc (env : Env) (hE : EnvOk env) :
       simp only [Res.ok_bind, hloop, List.nil_append, Res.pure_eq, ofLe_leBytes 4 _ (by simpa using hlen)]
       have hvs : vsize (.msg fs) = Facts.msgHeaderLen + ((encFields fs).length + 1) := by
         simp [vsize, Facts.msgSizeBase, Facts.msgHeaderLen, length_encFields]; omega
-      have hln : (if safe = true then max (Facts.msgHeaderLen + ((encFields fs).length + 1)) (vsize (.msg fs))
+      have hln : (if safe = true then max (Facts.msgHeaderLen + ((encFields fs).length + 1)) (gsize env (.ref n) (.msg fs))
           else Facts.msgHeaderLen + ((encFields fs).length + 1)) = Facts.msgHeaderLen + ((encFields fs).length + 1) := by
-        rw [hvs]; cases safe <;> simp
+        rw [hg, hvs]; cases safe <;> simp
       rw [hln]
       have hl2 : Facts.msgHeaderLen + ((encFields fs).length + 1)
           ≤ (leBytes 4 ((encFields fs).length + 1) ++ (encFields fs ++ 0 :: rest)).length := by
@@ -277,6 +276,7 @@ theorem dec_enc (env : Env) (hE : EnvOk env) :
       | 0, hf => simp [rank] at hf
       | 1, hf => simp [rank] at hf
       | f+2, hf =>
+      have hg := gsize_eq_vsize_of_wt env _ ty h
       simp only [wt] at h
       obtain ⟨n, brs, m, rfl, hn, hd, hm, hw, hsz⟩ := h
       simp only [rank] at hf
@@ -292,9 +292,9 @@ theorem dec_enc (env : Env) (hE : EnvOk env) :
         Res.pure_eq, ofLe_leBytes 4 _ (by simpa using hlen)]
       have hvs : vsize (.union d v) = Facts.unionHeaderLen + (enc v).length := by
         simp [vsize, Facts.unionSizeBase, Facts.unionHeaderLen, length_enc]
-      have hln : (if safe = true then max (Facts.unionHeaderLen + (enc v).length) (vsize (.union d v))
+      have hln : (if safe = true then max (Facts.unionHeaderLen + (enc v).length) (gsize env (.ref n) (.union d v))
           else Facts.unionHeaderLen + (enc v).length) = Facts.unionHeaderLen + (enc v).length := by
-        rw [hvs]; cases safe <;> simp
+        rw [hg, hvs]; cases safe <;> simp
       rw [hln]
       have hl2 : Facts.unionHeaderLen + (enc v).length
           ≤ (leBytes 4 (enc v).length ++ UInt8.ofNat d :: (enc v ++ rest)).length := by
@@ -380,7 +380,7 @@ theorem decMsgLoop_enc (env : Env) (hE : EnvOk env) :
       match n, hn with
       | n+1, hn =>
       simp only [wtMsg] at h
-      obtain ⟨hlo, hi, ⟨fd, hfd, hwv⟩, hrest⟩ := h
+      obtain ⟨hlo, hi, ⟨fd, hfd, _, hwv⟩, hrest⟩ := h
       simp only [rankFields] at hf
       have h1 : rank v < f := by omega
       have h2 : rankFields fs < f := by omega
